@@ -52,6 +52,11 @@ def dispatch_events(arg):
                 name = ["v" + "a" * rng.randrange(0, 20)] + ["lbl*" if rng.random() < 0.3 else "lbl"] + labs
             else:
                 name = pre + [labs[0][:-1] or "q"] + labs[1:]
+            if i % 9 == 8:
+                # the domain's own text occurs twice (a resolver appending its search domain, a label that merely starts
+                # like the domain): still tunnel traffic exactly when the name ENDS with the domain at a label boundary
+                name = pre + [l.upper() if rng.random() < 0.3 else l for l in labs] + \
+                    ([labs[0] + "xy"] + labs[1:] if rng.random() < 0.3 else []) + labs
             name = [n for n in name if n] or ["a"]
             del got[:]
             q = D.build_query(1000 + i, [n.encode() for n in name], rng.choice([D.T_NULL, D.T_TXT, D.T_A, D.T_NS, D.T_MX]),
